@@ -149,6 +149,13 @@ def adjust (v : Val) (tz : Option Int) : Val :=
   | some _, some z => ofLocal (v.instantC + z * UM) (some z)
   | _, _ => { v with tz := tz }
 
+/-- `fn:adjust-date-to-timezone` (§9.6.2): the date is treated as the dateTime `00:00:00` of that day,
+adjusted, and the date part is kept -/
+def adjustDate (v : Val) (tz : Option Int) : Val :=
+  match v.tz, tz with
+  | some _, some z => { ofLocal ({ v with us := 0 }.instantC + z * UM) (some z) with us := 0 }
+  | _, _ => { v with tz := tz }
+
 /-- value of the lexical form `(year, month, day, hh:mm:ss.µs)` where `24:00:00` is the first instant
 of the following day (XSD 1.1 §3.3.7.2) -/
 def ofFields (a m d h mi s us : Int) (tz : Option Int) : Val :=
